@@ -175,6 +175,9 @@ class AstRewriter(ast.NodeTransformer):
             defaultdict(list)
         )
         for tracer in self._tracers:
+            if not self.should_instrument_with_tracer(tracer):
+                # as above: a tracer that does not instrument this file contributes neither sites nor guards
+                continue
             for evt, handler_specs in tracer._event_handlers.items():
                 handler_guards_by_event[evt].extend(
                     (spec, self._make_node_copy_flyweight(spec.guard))
